@@ -335,152 +335,157 @@ func c11Exec(raw json.RawMessage) (*Case, error) {
 	if l.Bundle == 0 {
 		return nil, fmt.Errorf("bundle size 0")
 	}
-	f := in.Fault
-	st, firsts := fsBuildStore(l, in.Delays)
-	rec := &recorder{failAt: -1}
 	coqFault := "FNone"
 	wantClass := 0
 	dmgNote := ""
-
-	switch f.Type {
-	case "exists":
-		name := ""
-		if f.File <= len(l.Files) {
-			name = fsFileName(l.base(f.File))
-		}
-		st.existFail = func(n string, call int) bool { return n == name && call < f.Count }
-		if f.Count >= 5 {
-			coqFault = fmt.Sprintf("(FExists %d)", f.File)
-			wantClass = 4
-		} else {
-			dmgNote = "transient"
-		}
-	case "open":
-		name := fsFileName(l.base(f.File))
-		st.openFail = func(n string) bool { return n == name }
-		coqFault = fmt.Sprintf("(FOpen %d)", f.File)
-		wantClass = 5
-	case "header":
-		name := fsFileName(l.base(f.File))
-		b := append([]byte(nil), st.content[name]...)
-		switch f.K % 3 {
-		case 0:
-			copy(b, "xbin")
-		case 1:
-			if len(b) > 4 {
-				b[4] = 9 // unsupported version
-			}
-		default:
-			if len(b) > 3 {
-				b = b[:3] // truncated header
-			}
-		}
-		st.set(name, b)
-		coqFault = fmt.Sprintf("(FHeader %d)", f.File)
-		wantClass = 3
-	case "read":
-		name := fsFileName(l.base(f.File))
-		content, offs := fsBundleOffsets(l.Files[f.File])
-		damaged, failAt := c11Damage(content, offs, f)
-		if c11ReaderSees(damaged, failAt, l.Files[f.File]) != f.K {
-			// this variant is not a fault at Read K for these bytes (e.g. it decodes as an altered
-			// block, C16's subject): use the storage error, which always is
-			f.Damage = "storage"
-			damaged, failAt = c11Damage(content, offs, f)
-		}
-		st.set(name, damaged)
-		cd := time.Duration(f.CloseDelayUs) * time.Microsecond
-		st.wrapReader = func(n string, r io.Reader) io.ReadCloser {
-			if n == name {
-				return &faultReader{r: r, failAt: failAt, closeDly: cd}
-			}
-			return io.NopCloser(r)
-		}
-		coqFault = fmt.Sprintf("(FRead %d %d)", f.File, f.K)
-		wantClass = 3
-		dmgNote = f.Damage
-	case "pre":
-		coqFault = fmt.Sprintf("(FPre %d %d)", f.File, f.K)
-		wantClass = 6
-	case "handler":
-		rec.failAt = f.K
-		coqFault = fmt.Sprintf("(FHandler %d)", f.K)
-		wantClass = 7
-	}
-	var preFailID uint64
-	preFail := false
-	if f.Type == "pre" {
-		preFailID = l.Files[f.File][f.K].ID
-		preFail = true
-	}
-	pre := bstream.PreprocessFunc(func(blk *pbbstream.Block) (interface{}, error) {
-		id := fsIDNum(blk.Id)
-		if dl := in.Delays.pre(id, blk.Number, firsts[id]); dl > 0 {
-			time.Sleep(dl)
-		}
-		if preFail && id == preFailID {
-			return nil, errInjPre
-		}
-		return fsTag(id, blk.Number), nil
-	})
-	opts := []bstream.FileSourceOption{bstream.FileSourceWithBundleSize(l.Bundle), bstream.FileSourceWithConcurrentPreprocess(pre, in.Threads)}
-	if l.Stop != 0 {
-		opts = append(opts, bstream.FileSourceWithStopBlock(l.Stop))
-	}
-
-	var src bstream.Source
 	kind := 0
-	switch in.Kind {
-	case "file":
-		src = bstream.NewFileSource(st, l.Start, rec, zap.NewNop(), opts...)
-	case "joining":
-		kind = 1
-		ff := bstream.NewFileSourceFactory(st, dstore.NewMockStore(nil), zap.NewNop(), opts...)
-		src = bstream.NewJoiningSource(ff, nilLiveFactory{}, rec, l.Start, nil, false, zap.NewNop())
-	case "stream":
-		kind = 2
-		sopts := []stream.Option{stream.WithPreprocessFunc(pre, in.Threads)}
-		if l.Stop != 0 {
-			sopts = append(sopts, stream.WithStopBlock(l.Stop))
-		}
-		var h *hub.ForkableHub // absent hub: never yields a live source
-		s := stream.New(dstore.NewMockStore(nil), st, h, int64(l.Start), rec, sopts...)
-		ctx, cancel := context.WithCancel(context.Background())
-		src = &streamSource{st: s, ctx: ctx, cancel: cancel}
-	case "cursor":
-		kind = 3
-		// the cursor sits on a forked block F (same height as the second eligible block, child of
-		// the first one); resolving it needs F's one-block file, whose download fails
-		var el []fsBlk
-		for i, fl := range l.Files {
-			for _, b := range fl {
-				if b.Num >= l.Start && b.Num >= l.base(i) {
-					el = append(el, b)
+	f := in.Fault
+	attempt := func(quiet time.Duration) *fsObs {
+		f = in.Fault
+		kind = 0
+		st, firsts := fsBuildStore(l, in.Delays)
+		rec := &recorder{failAt: -1}
+
+		switch f.Type {
+		case "exists":
+			name := ""
+			if f.File <= len(l.Files) {
+				name = fsFileName(l.base(f.File))
+			}
+			st.existFail = func(n string, call int) bool { return n == name && call < f.Count }
+			if f.Count >= 5 {
+				coqFault = fmt.Sprintf("(FExists %d)", f.File)
+				wantClass = 4
+			} else {
+				dmgNote = "transient"
+			}
+		case "open":
+			name := fsFileName(l.base(f.File))
+			st.openFail = func(n string) bool { return n == name }
+			coqFault = fmt.Sprintf("(FOpen %d)", f.File)
+			wantClass = 5
+		case "header":
+			name := fsFileName(l.base(f.File))
+			b := append([]byte(nil), st.content[name]...)
+			switch f.K % 3 {
+			case 0:
+				copy(b, "xbin")
+			case 1:
+				if len(b) > 4 {
+					b[4] = 9 // unsupported version
+				}
+			default:
+				if len(b) > 3 {
+					b = b[:3] // truncated header
 				}
 			}
+			st.set(name, b)
+			coqFault = fmt.Sprintf("(FHeader %d)", f.File)
+			wantClass = 3
+		case "read":
+			name := fsFileName(l.base(f.File))
+			content, offs := fsBundleOffsets(l.Files[f.File])
+			damaged, failAt := c11Damage(content, offs, f)
+			if c11ReaderSees(damaged, failAt, l.Files[f.File]) != f.K {
+				// this variant is not a fault at Read K for these bytes (e.g. it decodes as an altered
+				// block, C16's subject): use the storage error, which always is
+				f.Damage = "storage"
+				damaged, failAt = c11Damage(content, offs, f)
+			}
+			st.set(name, damaged)
+			cd := time.Duration(f.CloseDelayUs) * time.Microsecond
+			st.wrapReader = func(n string, r io.Reader) io.ReadCloser {
+				if n == name {
+					return &faultReader{r: r, failAt: failAt, closeDly: cd}
+				}
+				return io.NopCloser(r)
+			}
+			coqFault = fmt.Sprintf("(FRead %d %d)", f.File, f.K)
+			wantClass = 3
+			dmgNote = f.Damage
+		case "pre":
+			coqFault = fmt.Sprintf("(FPre %d %d)", f.File, f.K)
+			wantClass = 6
+		case "handler":
+			rec.failAt = f.K
+			coqFault = fmt.Sprintf("(FHandler %d)", f.K)
+			wantClass = 7
 		}
-		if len(el) < 2 {
-			kind = 0
-			src = bstream.NewFileSource(st, l.Start, rec, zap.NewNop(), opts...)
-			break
+		var preFailID uint64
+		preFail := false
+		if f.Type == "pre" {
+			preFailID = l.Files[f.File][f.K].ID
+			preFail = true
 		}
-		a, b := el[0], el[1]
-		fork := fsBlk{ID: 900000 + b.ID, Num: b.Num, Par: a.ID}
-		fb := fsBlock(fork)
-		fb.LibNum = a.Num
-		forked := dstore.NewMockStore(nil)
-		forked.SetFile(bstream.BlockFileNameWithSuffix(fb, "verif"), fsBundleBytes([]fsBlk{fork}))
-		forked.OpenObjectFunc = func(ctx context.Context, name string) (io.ReadCloser, error) {
-			return nil, errInjOpen
+		pre := bstream.PreprocessFunc(func(blk *pbbstream.Block) (interface{}, error) {
+			id := fsIDNum(blk.Id)
+			if dl := in.Delays.pre(id, blk.Number, firsts[id]); dl > 0 {
+				time.Sleep(dl)
+			}
+			if preFail && id == preFailID {
+				return nil, errInjPre
+			}
+			return fsTag(id, blk.Number), nil
+		})
+		opts := []bstream.FileSourceOption{bstream.FileSourceWithBundleSize(l.Bundle), bstream.FileSourceWithConcurrentPreprocess(pre, in.Threads)}
+		if l.Stop != 0 {
+			opts = append(opts, bstream.FileSourceWithStopBlock(l.Stop))
 		}
-		cur := &bstream.Cursor{Step: bstream.StepNew, Block: bstream.NewBlockRef(fsIDStr(fork.ID), fork.Num),
-			HeadBlock: bstream.NewBlockRef(fsIDStr(fork.ID), fork.Num), LIB: bstream.NewBlockRef(fsIDStr(a.ID), a.Num)}
-		src = bstream.NewFileSourceFromCursor(st, forked, cur, rec, zap.NewNop(), opts...)
-		coqFault = "(FHandler 0)"
-		wantClass = 5
-	}
 
-	obs := runWatched(src, rec, 120*time.Millisecond, 2*time.Second)
+		var src bstream.Source
+		switch in.Kind {
+		case "file":
+			src = bstream.NewFileSource(st, l.Start, rec, zap.NewNop(), opts...)
+		case "joining":
+			kind = 1
+			ff := bstream.NewFileSourceFactory(st, dstore.NewMockStore(nil), zap.NewNop(), opts...)
+			src = bstream.NewJoiningSource(ff, nilLiveFactory{}, rec, l.Start, nil, false, zap.NewNop())
+		case "stream":
+			kind = 2
+			sopts := []stream.Option{stream.WithPreprocessFunc(pre, in.Threads)}
+			if l.Stop != 0 {
+				sopts = append(sopts, stream.WithStopBlock(l.Stop))
+			}
+			var h *hub.ForkableHub // absent hub: never yields a live source
+			s := stream.New(dstore.NewMockStore(nil), st, h, int64(l.Start), rec, sopts...)
+			ctx, cancel := context.WithCancel(context.Background())
+			src = &streamSource{st: s, ctx: ctx, cancel: cancel}
+		case "cursor":
+			kind = 3
+			// the cursor sits on a forked block F (same height as the second eligible block, child of
+			// the first one); resolving it needs F's one-block file, whose download fails
+			var el []fsBlk
+			for i, fl := range l.Files[:c11FilesRead(l)] {
+				for _, b := range fl {
+					if b.Num >= l.Start && b.Num >= l.base(i) {
+						el = append(el, b)
+					}
+				}
+			}
+			if len(el) < 2 {
+				kind = 0
+				src = bstream.NewFileSource(st, l.Start, rec, zap.NewNop(), opts...)
+				break
+			}
+			a, b := el[0], el[1]
+			fork := fsBlk{ID: 900000 + b.ID, Num: b.Num, Par: a.ID}
+			fb := fsBlock(fork)
+			fb.LibNum = a.Num
+			forked := dstore.NewMockStore(nil)
+			forked.SetFile(bstream.BlockFileNameWithSuffix(fb, "verif"), fsBundleBytes([]fsBlk{fork}))
+			forked.OpenObjectFunc = func(ctx context.Context, name string) (io.ReadCloser, error) {
+				return nil, errInjOpen
+			}
+			cur := &bstream.Cursor{Step: bstream.StepNew, Block: bstream.NewBlockRef(fsIDStr(fork.ID), fork.Num),
+				HeadBlock: bstream.NewBlockRef(fsIDStr(fork.ID), fork.Num), LIB: bstream.NewBlockRef(fsIDStr(a.ID), a.Num)}
+			src = bstream.NewFileSourceFromCursor(st, forked, cur, rec, zap.NewNop(), opts...)
+			coqFault = "(FHandler 0)"
+			wantClass = 5
+		}
+
+		return runWatched(src, rec, quiet, 2*time.Second)
+	}
+	obs := runRetry(l, attempt)
 	hung := !obs.Returned
 	cs := &Case{Obs: obs}
 	cs.Coq = fmt.Sprintf("C11Case %d %s %s %d %s %s %d %s %s", kind, coqLayout(l), coqFault, wantClass,
